@@ -721,11 +721,13 @@ def i6_i7_writer(ck):
     ck.req(len(firsts) == 1 and len(g) == 1, "I5.writer_guard", "writer", w.where(pline),
            "the writer's bestmove is printed under a condition other than `best_line.first()` being Some: %s" % [show(c)[:60] for c, v in g if (c, v) not in firsts][:2])
     # I6: best_line is assigned only from an empty vector and from the `line` of a received BestMove event
-    bl = [l for l in range(len(w.locals)) if w.local_name(l) == "best_line"]
+    # the line variable: the Vec<Move> local whose first element guards (and feeds) the print - identified by use, not by name
+    bl = sorted({x[1] for c, v in firsts for y in walk(c) if y[0] == "call" and y[1].endswith("::first") for x in walk(y) if x[0] == "var" and "Vec<" in w.local_ty(x[1])})
     if len(bl) != 1:
-        ck.missing("I6", "local `best_line` in the writer closure")
+        ck.missing("I6", "the Vec<Move> local whose first() guards the bestmove print in the writer closure")
         return
     bl = bl[0]
+    bl_name = w.local_name(bl)
     nsrc = 0
     for bb, blk in enumerate(w.blocks):
         if blk.get("cleanup"):
@@ -755,7 +757,7 @@ def i6_i7_writer(ck):
     if len(args) == 3:
         def is_acc(t, acc):
             return t[0] == "call" and t[1] == "weechess_core::moves::Move::" + acc and \
-                any(x[0] == "call" and x[1].endswith("::first") for x in walk(t)) and any(x[0] == "var" and x[2] == "best_line" for x in walk(t))
+                any(x[0] == "call" and x[1].endswith("::first") for x in walk(t)) and any(x[0] == "var" and x[1] == bl for x in walk(t))
         ck.req(is_acc(args[0], "origin"), "I7.writer_fields", "origin", w.where(pline), "first field is %s, not the origin of best_line.first()" % show(args[0])[:80])
         ck.req(is_acc(args[1], "destination"), "I7.writer_fields", "destination", w.where(pline),
                "second field is %s, not the destination of best_line.first()" % show(args[1])[:80])
@@ -763,18 +765,25 @@ def i6_i7_writer(ck):
         third = args[2]
         defs = []
         if third[0] == "var":
-            l = third[1]
-            for bb, blk in enumerate(w.blocks):
-                if blk.get("cleanup"):
+            todo, seen_l = [third[1]], set()
+            while todo:
+                l = todo.pop()
+                if l in seen_l:
                     continue
-                t = blk["term"]
-                if t["k"] == "call" and t["dest"] == {"l": l, "p": []}:
-                    defs.append(tb.call_term(t))
+                seen_l.add(l)
+                for d in tb.d.defs.get(l, []):
+                    if d[0] == "call":
+                        defs.append(tb.call_term(d[2]))
+                    elif "use" in d[3]:
+                        q = d[3]["use"].get("move") or d[3]["use"].get("copy")
+                        if q is not None and not q["p"]:
+                            todo.append(q["l"])
         else:
             defs = [third]
         promo = [d for d in defs if any(x[0] == "call" and x[1] == "weechess_core::moves::Move::promotion" for x in walk(d))]
         lower = [d for d in promo if any(x[0] == "call" and "to_ascii_lowercase" in x[1] for x in walk(d))]
-        empty = [d for d in defs if any(x[0] == "const" and _is_empty_str(x) for x in walk(d))]
+        empty = [d for d in defs if any(x[0] == "const" and _is_empty_str(x) for x in walk(d))
+                 or (d[0] == "call" and d[1] in ("alloc::string::String::new", "<alloc::string::String as core::default::Default>::default"))]
         ck.req(len(defs) == 2 and len(lower) == 1 and len(empty) == 1, "I7.writer_fields", "promotion", w.where(pline),
                "third field is not `lower-cased promotion letter or empty` (%s)" % [show(d)[:60] for d in defs][:2])
 
